@@ -221,6 +221,8 @@ class Scripted(BaseAlgorithm):
         self.malformed_done = False
         self.snapshot = None
         self.before_malformed = None
+        self.by_calls = False
+        self.ncalls = 0
 
     def schedule(self, active_sessions):
         t = self.interface.current_time
@@ -233,7 +235,11 @@ class Scripted(BaseAlgorithm):
             self.malformed_done = True
             self.before_malformed = self.snapshot() if self.snapshot is not None else None
             return materialise(self.malformed["entry"])
-        if not self.table or t - self.shift < 0:
+        if self.by_calls and self.table:
+            # a scheduler playing back a recorded list: the n-th call gets the n-th entry
+            out = materialise(self.table[self.ncalls % len(self.table)])
+            self.ncalls += 1
+        elif not self.table or t - self.shift < 0:
             out = {}
         else:
             out = materialise(self.table[(t - self.shift) % len(self.table)])
@@ -320,6 +326,7 @@ def make_scheduler(spec, observer=None, crash_at=None, shift=0):
     if sch["kind"] == "scripted":
         a = Scripted(sch["table"], sch.get("max_recompute"), observer, crash_at, shift)
         a.probe = bool(sch.get("probe"))
+        a.by_calls = bool(sch.get("by_calls"))
         return a
     return Wrapped(make_inner(sch), observer, crash_at)
 
